@@ -54,9 +54,7 @@ def main():
                    "--continue-on-collection-errors", source_commits=[], add_only=True),
         engines=[dict(name="symex", path="symex/", serves_properties=sorted(claimed),
                       kind_free_text="own DSE explorer: re-executes the real entity_query_language engine on z3-backed "
-                      "proxy values; z3 decides branch feasibility, per-path obligations and a closing coverage obligation"),
-                 dict(name="crosshair", path="crosshair/", serves_properties=["C20"],
-                      kind_free_text="crosshair-tool 0.0.110 contracts on cache_data.IndexedCache, counterexample finder only")],
+                      "proxy values; z3 decides branch feasibility, per-path obligations and a closing coverage obligation")],
         checks=checks,
         notes="See DESIGN.md. Exit codes: 0 held / 1 VIOLATION (replayed on plain data first) / 3 harness error.",
         not_applicable=[dict(property_id=k, reason=v) for k, v in sorted(na.items())],
